@@ -47,6 +47,10 @@ def measure(seed, N, order):
     return res
 
 
+# kinematic quantities whose value may not depend on what was requested before (history pass)
+HISTORY_KEYS = ["theta", "sheardown4", "omegadown4", "s_covd_udown4", "st_covd_udown4", "accelerationdown4", "shear2", "omega2"]
+
+
 def search(ctx, n):
     found = 0
     for it in range(n):
@@ -81,6 +85,10 @@ def run(ctx):
             ctx.leanchecker([MODULE])
     with np.errstate(all="ignore"):
         search(ctx, ctx.budget(2, 8) + (4 if ctx.broken() else 0))
+        if r is not None:
+            hseed = ctx.rng.randrange(10 ** 6)
+            corecheck.history_pass(ctx, r[2], HISTORY_KEYS, lambda N: corecheck.make_rel(np.random.default_rng(hseed), N=N, order=4),
+                                   "C19", Ns=(8, 16), max_alts=None if ctx.tier == "thorough" or ctx.broken() else 14)
 
 
 def replay(ctx, obj):
